@@ -54,6 +54,8 @@ def generate(tier, rng):
         fr.append(gens.echo6(gens.PEER6, "ff02::1", mac_dst=bytes.fromhex("333300000001")))
         yield Script(cfg, fr, "echo-sizes+ns-layouts")
 
+    yield Script(Cfg(), gens.hostile_requests(rng), "hostile-requests")
+    yield Script(Cfg(self_ips=[gens.SELF4, gens.SELF6]), gens.hostile_requests(rng), "hostile-requests:self-ips")
 
 def nontrivial(script):
     return True
